@@ -877,7 +877,7 @@ func (h *H) drawEntry() rec {
 // TestPropCrashImages: the general state machine
 
 func TestPropCrashImages(t *testing.T) {
-	stats.Check(t, stats.Budget{Quick: 30, Thorough: 500},
+	stats.Check(t, stats.Budget{Quick: 24, Thorough: 500},
 		"rapid history of 8-45 ops append(8 entry kinds, heights W..W+3, rounds 0-2)/prune/flush/close+reopen/crash+continue(as-is or torn image) "+
 			"on the real store; after every flush: as-is image + EVERY cut offset + EVERY corrupted byte (all bits; thorough: also one bit) of the newest log file past the previously synced size; "+
 			"non-trivial = a batch of >=2 records was enumerated and (a prune was followed by appends to a higher height in the same file, or the history continued on a torn image, or appended at a pruned height)",
